@@ -291,6 +291,14 @@ impl BOp {
 #[derive(Clone, Copy, Debug)]
 enum BCtor { Raw(usize, usize), Full, Empty }
 
+thread_local! { static RESEAT: std::cell::Cell<bool> = std::cell::Cell::new(false); }
+/// a quarter of the cases, chosen by a hash of the operation sequence (deterministic)
+fn set_reseat<T: std::fmt::Debug>(ops: &[T]) {
+    let mut h: u64 = 0xcbf29ce484222325;
+    for b in format!("{:?}", ops).bytes() { h = (h ^ b as u64).wrapping_mul(0x100000001b3); }
+    RESEAT.with(|r| r.set((h >> 17) & 3 == 0));
+}
+
 /// anomalies seen by `exec` itself that are not part of the compared observation
 /// (drain's ExactSizeIterator::len / size_hint)
 type Extra = Vec<(String, String, String)>;
@@ -345,8 +353,12 @@ fn exec_b<S: SliceMut<Element = i32>>(slot: &mut Option<Bounded<S>>, op: &BOp, e
     });
     extra.extend(ex);
     // raw parts after each operation (property: observe_at): a mutating call must leave a state that
-    // `from_raw_parts` accepts; if it does not, stop using the buffer (further calls would be UB)
-    if mutating_b(op) {
+    // `from_raw_parts` accepts; if it does not, stop using the buffer (further calls would be UB).
+    // Only in a quarter of the cases (`reseat`): taking the buffer apart and rebuilding it from
+    // (start, len, data) after every call would re-derive — and so hide — any internal state the
+    // implementation keeps besides those three; the other cases are pure API histories, as a client
+    // runs them, with the raw parts looked at only where the operation sequence says `raw` / `data`.
+    if mutating_b(op) && RESEAT.with(|r| r.get()) {
         let b = slot.take().unwrap();
         let (s, l, d) = unsafe { b.into_raw_parts() };
         let cap = d.slice().len();
@@ -365,6 +377,7 @@ impl<'a> Runner<i32> for BRun<'a> {
     type Out = (Option<Vec<Seen>>, Extra);
     fn run<S: SliceMut<Element = i32>>(self, data: S) -> Self::Out {
         let ctor = self.ctor;
+        set_reseat(self.ops);
         let rb = guarded(move || match ctor {
             BCtor::Raw(s, l) => Bounded::from_raw_parts(s, l, data),
             BCtor::Full => Bounded::from_full(data),
@@ -775,7 +788,7 @@ where S::Element: Elem {
         FOp::Raw | FOp::Data => unreachable!(),
     });
     extra.extend(ex);
-    if mutating_f(op) {
+    if mutating_f(op) && RESEAT.with(|r| r.get()) {
         let f = slot.take().unwrap();
         let (first, d) = f.into_raw_parts();
         let n = d.slice().len();
@@ -794,6 +807,7 @@ impl<'a, E: Elem> Runner<E> for FRun<'a> {
     type Out = (Option<Vec<Seen>>, Extra);
     fn run<S: SliceMut<Element = E>>(self, data: S) -> Self::Out {
         let ctor = self.ctor;
+        set_reseat(self.ops);
         let rb = guarded(move || match ctor { FCtor::Raw(f) => Fixed::from_raw_parts(f, data), FCtor::From => Fixed::from(data) });
         let mut extra = vec![];
         match rb {
